@@ -144,12 +144,12 @@ def spline(potential_forms, potential_form_builder):
   pot2 = pform.next._replace(next = None)
 
   allowed_spline_types = [s.spline_keyword for s in spline_factories]
-  if not pot2.potential_form in allowed_spline_types:
+  if not getattr(pot2, "potential_form", None) in allowed_spline_types:
     allowed_spline_types_str = ["'{}'".format(t) for t in allowed_spline_types]
     allowed_spline_types_str = ",".join(allowed_spline_types_str)
     raise ConfigurationException("spline modifier only accepts spline types {} for middle potential form. '{}' was found instead".format(
       allowed_spline_types_str,
-      pot2.potential_form))
+      getattr(pot2, "potential_form", getattr(pot2, "modifier", None))))
 
   if pform.next.next is None:
     raise ConfigurationException("spline modifier requires three sub-potentials to be defined only two specified.")
@@ -225,7 +225,7 @@ def trans(potential_forms, potential_form_builder):
     raise ConfigurationException("trans() potential modifier only accepts two arguments")
 
   second_form = potential_forms[1]
-  if second_form.potential_form != 'as.constant':
+  if getattr(second_form, "potential_form", None) != 'as.constant':
     raise ConfigurationException("the second argument to the trans() potential modifier must be 'as.constant' found {}".format(second_form))
 
   if len(second_form.parameters) != 1:
